@@ -62,10 +62,10 @@ HasEscapedSlash(p) == \E i \in 1..Len(p) : p[i] = "p2F"
 
 VARIABLE c
 Queries == {"none", "simple", "canon2", "unsorted", "encoded"}
-Init == \E sn \in SetNames, p \in Paths, raw \in BOOLEAN, ph \in BOOLEAN, m \in {"GET", "POST", "PUT", "DELETE"}, q \in Queries, bd \in {"none", "small", "big"} :
+Init == \E sn \in SetNames, p \in Paths, raw \in BOOLEAN, ph \in BOOLEAN, m \in {"GET", "POST", "PUT", "DELETE"}, q \in Queries, bd \in {"none", "small", "big", "chunked_small", "chunked_big"} :        \* chunked: Transfer-Encoding: chunked, no Content-Length (100 B / 200 KiB)
           /\ c = [set |-> sn, path |-> p, rawPath |-> raw, passHost |-> ph, method |-> m, query |-> q, body |-> bd]
           /\ (bd # "none" => m \in {"POST", "PUT"}) /\ (m \in {"POST", "PUT"} => bd # "none")
-          /\ (bd = "big" => Len(p) <= 2 /\ q = "none")
+          /\ (bd \in {"big", "chunked_big", "chunked_small"} => Len(p) <= 2 /\ q = "none")
           /\ (Tier = "quick" => (m \in {"GET", "POST"} /\ (q \in {"none", "unsorted"} \/ Len(p) <= 2) /\ (ph \/ Len(p) <= 3) /\ (m = "GET" \/ Len(p) <= 3)))
 Next == UNCHANGED c
 
